@@ -598,8 +598,14 @@ package process
 //@ macro listShape(ts []types.SessionType) bool = forall m int :: 0 <= m && m < len(ts) ==> ts[m] != nil && shapeOK(ts[m])
 //@ macro fdefListed(fd FunctionDefinition, ts []types.SessionType) bool = inList(ts, fd.Type) && (forall i int :: 0 <= i && i < len(fd.Parameters) ==> inList(ts, fd.Parameters[i].Type))
 //@ macro fdefReady(fd FunctionDefinition, D Set[string], V Arr[string]types.LabelledType) bool = ready(fd.Type, D, V) && paramsReady(fd.Parameters, D, V)
+// C06 at function definitions: every parameter's mode can be down-shifted to the mode of the result type
+//@ macro fdefIndep(fd FunctionDefinition) bool = forall i int :: 0 <= i && i < len(fd.Parameters) ==> ge(modeOf(fd.Parameters[i].Type), modeOf(fd.Type))
 //@ contract preliminaryFunctionDefinitionsChecks
 //@   heapwf
+//@   ensures[C09] C06.siteFun: result == nil ==> (forall k int :: 0 <= k && k < len(deref(globalEnv.FunctionDefinitions)) ==> fdefIndep(deref(globalEnv.FunctionDefinitions)[k]))
+//@   loop[C09] 1 invariant forall j int :: 0 <= j && j <= idx ==> fdefIndep(deref(globalEnv.FunctionDefinitions)[j])
+//@   loop[C09] 2 invariant forall j int :: 0 <= j && j <= idx1 ==> fdefIndep(deref(globalEnv.FunctionDefinitions)[j])
+//@   loop[C09] 3 invariant forall j int :: 0 <= j && j <= idx1 ==> fdefIndep(deref(globalEnv.FunctionDefinitions)[j])
 //@   requires[C09] genvShape(globalEnv) && readyEnv(envD(globalEnv), envV(globalEnv))
 //@   ensures[C09] C09.prelimFuncs: result == nil ==> fdefsReady(deref(globalEnv.FunctionDefinitions), envD(globalEnv), envV(globalEnv))
 //@   ensures[C09] C09.prelimFuncsKept: modesKept()
